@@ -16,7 +16,8 @@ RULE = (
     "has at least one peak-retention month with a real pulse (duration > 1e-3 h) whose peak differs from the monthly "
     "average; distinct by hash of (load spec, borehole, horizon)."
 )
-ASSUMPTIONS = ["month-end breakpoints are located by exact equality with the non-leap calendar (O1)"]
+ASSUMPTIONS = ["month-end breakpoints are located by exact equality with the independent calendar O1 (non-leap; leap when the "
+               "single load year is a leap year, one case in six: 8784 values, years=[2020])"]
 
 
 def _ipf(m, n):
@@ -26,8 +27,11 @@ def _ipf(m, n):
 def check(case, rec):
     hl, hourly, eq, radial = hc.make_hybrid(case)
     n = case["months"]
-    ms = hc.month_stats(hourly)
-    slices = hc.month_slices(hl, n)
+    leap = bool(case.get("leap"))
+    ms = hc.month_stats(hourly, leap)
+    slices = hc.month_slices(hl, n, leap)
+    if leap:
+        rec.cls("leap_load_year")
     load, hour = hl.load, hl.hour
     if len(load) != len(hour):
         raise Violation("load and hour arrays differ in length", sig={"kind": "shape"})
@@ -39,7 +43,7 @@ def check(case, rec):
         st_ = ms[hc.cal_month(m)]
         sl = slices[m - 1]
         if sl is None:
-            raise Violation(f"no breakpoint at the end of month {m} (hour {gl.month_end_hour(m)})",
+            raise Violation(f"no breakpoint at the end of month {m} (hour {gl.month_end_hour(m, leap)}{', leap load year' if leap else ''})",
                             sig={"kind": "no_month_end_breakpoint"})
         i0, i1 = sl
         e = 0.0
@@ -104,7 +108,7 @@ def check(case, rec):
 
 
 def search(ctx):
-    ctx.given(hc.hybrid_case(), ctx.n(1500, 40_000))
+    ctx.given(hc.hybrid_case(leap_ok=True), ctx.n(1500, 40_000))
 
 
 SUBS = [Sub("month_energy", check, search, shards=lambda tier: 16)]
